@@ -7,12 +7,16 @@ import (
 	"fmt"
 	"os"
 
+	"verif/harness/comp/consts"
+	"verif/harness/comp/race"
 	"verif/harness/comp/ring"
 	"verif/harness/internal/hx"
 )
 
 var components = map[string]func(o *hx.Out, g *hx.Rng, tier string){
 	"ring": ring.Run,
+	"consts": consts.Run,
+	"race": race.Run,
 }
 
 func main() {
